@@ -168,51 +168,88 @@ func ruleC11R2(c *Ctx) {
 				key := fmt.Sprintf("%s removal in %s", kind, FuncName(fn))
 				pos := c.Pos(in.Pos())
 				var problems []string
-				// membership tests in nested maps: a hit must not reach the Remove within the same candidate
 				outer := enclosingLoopHeader(ci.Block())
 				if outer == nil {
 					problems = append(problems, "the removal is not inside a loop over candidates")
 				}
-				nHit := 0
-				eachInstr(fn, func(x ssa.Instruction) {
-					lk, ok := x.(*ssa.Lookup)
-					if !ok || !lk.CommaOk {
-						return
-					}
-					// lookup keyed by the candidate id
-					if !sameValueOrPath(lk.Index, idArg) {
-						return
-					}
-					okv := resultValue2(lk, 1)
-					if okv == nil || okv.Referrers() == nil {
-						return
-					}
-					for _, r := range *okv.Referrers() {
-						iff, isIf := r.(*ssa.If)
-						if !isIf {
-							continue
-						}
-						nHit++
-						if outer != nil && reachAvoiding(iff.Block().Succs[0], ci.Block(), outer) {
-							problems = append(problems, "the removal is reachable from a membership hit (the item is still listed by a live snapshot) without moving on to the next candidate")
-						}
-					}
-				})
 				if kind == a.KindSegment {
-					if nHit == 0 {
-						problems = append(problems, "no membership test of the candidate segment in the live snapshots' segment sets guards the removal")
-					}
-					// the scan over the live sets must be complete before the removal
-					var inner *ssa.BasicBlock
-					eachInstr(fn, func(x ssa.Instruction) {
-						if lk, ok := x.(*ssa.Lookup); ok && lk.CommaOk && sameValueOrPath(lk.Index, idArg) {
-							inner = enclosingLoopHeader(lk.Block())
+					// path rule (helpers of the policy are followed): in the round of one candidate, the
+					// removal is reached only if no lookup of the candidate in a live snapshot's segment set
+					// hit, and only after the loop over all live sets ran to its end
+					const (
+						fHit uint64 = 1 << iota
+						fScanned
+						fLooked
+					)
+					var liveMap *types.Var // the map of per-epoch segment sets: the one whose values are maps
+					for _, mf := range mapFields {
+						if mt, ok := mf.Type().Underlying().(*types.Map); ok {
+							if _, inner := mt.Elem().Underlying().(*types.Map); inner {
+								liveMap = mf
+							}
 						}
-					})
-					if inner == nil || inner == outer {
-						problems = append(problems, "the membership test is not in a loop over all live snapshots")
-					} else if !inner.Dominates(ci.Block()) || naturalLoop(inner)[ci.Block()] {
-						problems = append(problems, "the removal is not behind the complete scan of the live snapshots")
+					}
+					scanDone := map[*ssa.BasicBlock]bool{}
+					for _, m := range methods {
+						eachInstr(m, func(x ssa.Instruction) {
+							nx, ok := x.(*ssa.Next)
+							if !ok {
+								return
+							}
+							rg, ok := nx.Iter.(*ssa.Range)
+							if !ok || liveMap == nil || !loadsField(rg.X, liveMap) {
+								return
+							}
+							if okv := resultValue2(nx, 0); okv != nil && okv.Referrers() != nil {
+								for _, r := range *okv.Referrers() {
+									if iff, isIf := r.(*ssa.If); isIf {
+										scanDone[iff.Block().Succs[1]] = true
+									}
+								}
+							}
+						})
+					}
+					sm := &Summarizer{}
+					sm.Follow = func(f *ssa.Function) bool { return methodRecvNamed(f) == pol }
+					sm.LookupOutcomes = func(lk *ssa.Lookup, st *PState) []Outcome {
+						// a lookup in one live snapshot's segment set (a map whose value type is empty struct / bool), keyed by the candidate or a parameter
+						if _, isParam := lk.Index.(*ssa.Parameter); !isParam && !sameValueOrPath(lk.Index, idArg) {
+							return nil
+						}
+						if liveMap != nil && !dependsOnField(lk.X, liveMap) {
+							return nil
+						}
+						return []Outcome{{Results: []Tri{TriUnknown, TriYes}, Flags: fHit | fLooked}, {Results: []Tri{TriUnknown, TriNo}, Flags: fLooked}}
+					}
+					sm.OnInstr = func(f *ssa.Function, x ssa.Instruction, st *PState) bool {
+						if scanDone[x.Block()] && x == x.Block().Instrs[0] {
+							st.Flags |= fScanned
+						}
+						return true
+					}
+					ex := sm.Explorer(fn)
+					base := ex.OnInstr
+					ex.OnInstr = func(x ssa.Instruction, st *PState) bool {
+						base(x, st)
+						if x == ssa.Instruction(ci) {
+							if st.Flags&fHit != 0 {
+								problems = append(problems, "the removal is reachable although the candidate was found in a live snapshot's segment set in this round (the file is still needed)")
+							}
+							if st.Flags&fScanned == 0 {
+								problems = append(problems, "the removal is reachable without the scan over all live snapshots having completed")
+							}
+						}
+						return true
+					}
+					ex.OnEdge = func(from, to *ssa.BasicBlock, st *PState) {
+						if to == outer && outer != nil && naturalLoop(outer)[from] {
+							st.Flags &^= fHit | fScanned | fLooked
+						}
+					}
+					ex.Run()
+					if ex.Exceeded || sm.Exceeded {
+						c.Undecided(key, pos, "path exploration did not finish")
+						return
 					}
 				}
 				c.Check(len(problems) == 0, key, pos, "unreachable from a membership hit; behind the complete scan of the live sets", uniqJoin(problems))
@@ -382,7 +419,14 @@ func (c *Ctx) checkResource(s resourceSite, key string) {
 	a := c.Idx()
 	fn := s.fn
 	pos := c.Pos(s.call.Pos())
-	isRes := func(y ssa.Value) bool { return y == s.res }
+	resPath := accessPath(s.res)
+	isRes := func(y ssa.Value) bool {
+		if y == s.res {
+			return true
+		}
+		// another load of the same local cell / field path holds the same resource
+		return resPath != "" && strings.HasPrefix(resPath, "*cell:") && accessPath(y) == resPath
+	}
 	// holder objects: fresh local objects into which the resource (or a literal containing it) is stored
 	holders := map[ssa.Value]bool{}
 	// deferred / helper closures that release the resource or a holder
@@ -748,6 +792,12 @@ func ruleC11R5(c *Ctx) {
 // ---- R6 ------------------------------------------------------------------------------------------
 
 func ruleC11R6(c *Ctx) {
+	if c.Config.GOOS == "windows" {
+		// Windows refuses to delete a file that is open without FILE_SHARE_DELETE; the build-tagged
+		// remove() relies on that instead of a lock. The rule is about the flock-based (unix) variant.
+		c.OK("unlink behind an exclusive open (windows: enforced by the OS sharing mode)", "-", "not applicable on GOOS=windows")
+		return
+	}
 	m := newPersistModel(c.Program)
 	for _, fn := range directoryMethodImpls(c.Program, "Remove") {
 		s := &Summarizer{SiteOutcomes: m.outcomes}
